@@ -46,7 +46,7 @@ impl Check for C16 {
     fn cases(&self, tier: Tier) -> u64 {
         match tier {
             Tier::Quick => 25_000,
-            Tier::Thorough => 1_000_000,
+            Tier::Thorough => 300_000,
         }
     }
     fn tape_len(&self, _t: Tier) -> usize {
